@@ -39,7 +39,7 @@ ASSUMPTIONS = [
     'a message element with no children at all (not schema-valid) may classify as its class or as UnknownMosFileType',
     'damaged texts on which ElementTree raises something other than ParseError are not generated',
 ]
-MANDATORY = ['str-with-bom-or-foreign-declaration', 'envelope-without-messageID', 'source:relfile', 'decorated', 'utf8-bom', 'namespaced', 'attributes', 'filter:error', 'source:bytes', 'source:file', 'encoding:latin1', 'encoding:utf16', 'encoding:utf16be', 'ea-shape:unlisted', 'ea-shape:listed',
+MANDATORY = ['undecodable-declared-encoding', 'str-with-bom-or-foreign-declaration', 'envelope-without-messageID', 'source:relfile', 'decorated', 'utf8-bom', 'namespaced', 'attributes', 'filter:error', 'source:bytes', 'source:file', 'encoding:latin1', 'encoding:utf16', 'encoding:utf16be', 'ea-shape:unlisted', 'ea-shape:listed',
              'ea-op:unknown', 'ea-op:missing', 'ea-source:absent', 'malformed', 'unknown-root',
              'nested-decoy', 'envelope-permuted', 'plain-tag']
 
@@ -118,6 +118,16 @@ def classify(text, source='str', filt='default'):
                 # a str still carrying the declaration of the encoding it was decoded from
                 body = text[text.index('?>') + 2:] if text.startswith('<?xml') else text
                 mo = MosFile.from_string(f'<?xml version="1.0" encoding="{source[9:]}"?>' + body)
+            elif ':undecodable:' in source:
+                body = text[text.index('?>') + 2:] if text.startswith('<?xml') else text
+                raw = (f'<?xml version="1.0" encoding="{source.split(":")[2]}"?>' + body).encode('ascii', 'xmlcharrefreplace')
+                if source.startswith('bytes'):
+                    mo = MosFile.from_string(raw)
+                else:
+                    path = os.path.join(_tmp(), 'und.mos.xml')
+                    with open(path, 'wb') as f:
+                        f.write(raw)
+                    mo = MosFile.from_file(path)
             elif source == 'bytes':
                 mo = MosFile.from_string(text.encode('utf-8'))
             elif source == 'bytes:utf8bom':
@@ -150,6 +160,8 @@ def judge_doc(case):
     if exp is None:
         return []
     got, site = classify(case['doc'], case.get('source', 'str'), case.get('filter', 'default'))
+    if ':undecodable:' in case.get('source', ''):
+        exp = set(exp) | {'MosInvalidXML'}
     if got in exp:
         return []
     kind = 'exception' if site else 'class'
@@ -240,6 +252,14 @@ def record_doc(col, text, classes, sources=('str', 'bytes', 'file'), filters=('d
                 sources += [f'bytes:{enc}', f'file:{enc}']
     if 'file' in sources and h64(text) % 4 == 0:
         sources.append('relfile')
+    if encodings and h64(text, 'und') % 6 == 0 and expected(text) not in (None, {'MosInvalidXML'}):
+        # the document declares an encoding the parser underneath cannot decode: classification is
+        # TOTAL - the class the message element determines, or MosInvalidXML, nothing else escapes
+        for enc in ('Shift_JIS', 'UTF-32', 'UCS-2', 'Big5', 'ANSI')[h64(text, 'e') % 5:][:2]:
+            for src in ('bytes', 'file'):
+                case = {'doc': text, 'source': f'{src}:undecodable:{enc}', 'filter': 'default'}
+                col.record(case, True, list(classes) + ['undecodable-declared-encoding'], judge_doc(case),
+                           key=h64(text, src, enc))
     for source in sources:
         for filt in filters:
             case = {'doc': text, 'source': source, 'filter': filt}
